@@ -34,6 +34,7 @@ def run_case(df, meta):
     dist = {'binary': None, 'normal': ('gaussian' if meta['n'] % 2 else 'normal'), 'poisson': 'poisson'}[otype]
     satL, satAL = meta['sat_L'], meta['sat_AL']
     miss = bool(meta.get('missing'))
+    wcol = 'w' if meta.get('weighted') else None      # frequency weights: thousands of identical rows written once
     pk = ec.should_poke(df) or miss      # displays / diagnostics / plots called before and after fit() on half the cases
     out['poked'] = pk
 
@@ -48,7 +49,7 @@ def run_case(df, meta):
         for stab in (False, True):
             for std, _ in TARGETS:
                 dfc = df.copy()
-                ip = IPTW(dfc, 'A', 'Y', standardize=std)
+                ip = IPTW(dfc, 'A', 'Y', standardize=std, weights=wcol)
                 ec.scramble(dfc)     # the caller's own frame changes after construction
                 ip.treatment_model(satL, stabilized=stab, print_results=False)
                 if miss:
@@ -86,7 +87,7 @@ def run_case(df, meta):
         res = {}
         for std, _ in TARGETS:
             dfc = df.copy()
-            g = TimeFixedGFormula(dfc, 'A', 'Y', outcome_type=otype, standardize=std)
+            g = TimeFixedGFormula(dfc, 'A', 'Y', outcome_type=otype, standardize=std, weights=wcol)
             ec.scramble(dfc)
             g.outcome_model(satAL, print_results=False)
             if pk:
@@ -106,7 +107,7 @@ def run_case(df, meta):
 
     def aiptw():
         dfc = df.copy()
-        ai = AIPTW(dfc, 'A', 'Y')
+        ai = AIPTW(dfc, 'A', 'Y', weights=wcol)
         ec.scramble(dfc)
         ai.exposure_model(satL, print_results=False)
         if dist:
@@ -158,7 +159,8 @@ def run_case(df, meta):
     if not miss:
         guard('TimeFixedGFormula', gform)
         guard('AIPTW', aiptw)
-    guard('TMLE', tmle)
+    if not wcol:
+        guard('TMLE', tmle)          # TMLE takes no weights column
     return out
 
 
@@ -170,7 +172,10 @@ def build_expr(out, meta):
     snaps_ok = True
     parts = []
     # specification from the raw rows only
-    raw = ec.coq_rows(S, A, Y)
+    W = out.get('W')
+    if W:
+        n = int(sum(W))       # fitted cell proportions / means have the weighted cell sizes as denominators
+    raw = ec.coq_rows(S, A, Y, W=W)
     parts.append('let l := %s in Qflat [std TAll true l; std TAll false l; std TExposed true l; std TExposed false l; '
                  'std TUnexposed true l; std TUnexposed false l]' % raw)
     # IPTW model fed the implementation's own fitted propensities
@@ -187,7 +192,7 @@ def build_expr(out, meta):
         if 'iptw_m' in out:
             mm, okm = ec.snap_vec(out['iptw_m'], n)
             snaps_ok &= okm
-        parts.append('let l := %s in Qflat [%s]' % (ec.coq_rows(S, A, Y, g1=g, m1=mm, m0=mm), '; '.join(lst)))
+        parts.append('let l := %s in Qflat [%s]' % (ec.coq_rows(S, A, Y, W=W, g1=g, m1=mm, m0=mm), '; '.join(lst)))
     else:
         parts.append('(@nil (list Z))')
     if 'gf_q1' in out and 'gf_q0' in out:
@@ -195,7 +200,7 @@ def build_expr(out, meta):
         q0, ok0 = ec.snap_vec(out['gf_q0'], n, yden)
         snaps_ok &= ok1 and ok0
         lst = ['gf_marginal %s %s l' % (t, a) for _, t in TARGETS for a in ('true', 'false')]
-        parts.append('let l := %s in Qflat [%s]' % (ec.coq_rows(S, A, Y, q1=q1, q0=q0), '; '.join(lst)))
+        parts.append('let l := %s in Qflat [%s]' % (ec.coq_rows(S, A, Y, W=W, q1=q1, q0=q0), '; '.join(lst)))
     else:
         parts.append('(@nil (list Z))')
     if 'aipw_g' in out:
@@ -203,7 +208,7 @@ def build_expr(out, meta):
         q1, ok1 = ec.snap_vec(out['aipw_q1'], n, yden)
         q0, ok0 = ec.snap_vec(out['aipw_q0'], n, yden)
         snaps_ok &= ok and ok1 and ok0
-        parts.append('let l := %s in Qflat [aipw_mean aipw_y1 l; aipw_mean aipw_y0 l]' % ec.coq_rows(S, A, Y, g1=g, q1=q1, q0=q0))
+        parts.append('let l := %s in Qflat [aipw_mean aipw_y1 l; aipw_mean aipw_y0 l]' % ec.coq_rows(S, A, Y, W=W, g1=g, q1=q1, q0=q0))
     else:
         parts.append('(@nil (list Z))')
     if 'tmle_q1' in out:
@@ -293,13 +298,38 @@ def check(ctx, fails, df, meta, out, r, snaps_ok):
                 ctx.broken_ties.append('correspondence: TMLE plug-in model %s vs implementation %r' % (t1 - t0, out['tmle']['rd']))
 
 
+def rare_treatment_frame(rng, otype):
+    """one stratum in which treatment is very rare (2 treated among ~20000, written as weighted rows): the saturated
+    propensity fit has to reach a fitted probability of 1e-4; the other strata are ordinary"""
+    rows = []
+    def y(v):
+        return float(v) if otype == 'binary' else round(10 + 3 * v + rng.gauss(0, 1), 2)
+    for s_code in range(3):
+        if s_code == 0:
+            big = rng.randint(15000, 30000)
+            k1 = rng.randint(big // 5, big // 2)
+            rows += [[0, 1, y(1), 1, 0], [0, 1, y(0), 1, 0], [0, 0, y(1), k1, 0], [0, 0, y(0), big - k1, 0]]
+        else:
+            for a in (0, 1):
+                for v in (0, 1):
+                    for _ in range(rng.randint(1, 3)):
+                        rows.append([s_code, a, y(v), rng.randint(1, 3), s_code])
+    rng.shuffle(rows)
+    df = pd.DataFrame(rows, columns=['L0', 'A', 'Y', 'w', 'S'])
+    meta = {'n_cov': 1, 'arities': [3], 'outcome': otype, 'n': len(df), 'n_strata': 3, 'sat_L': 'C(L0)', 'sat_AL': 'A * C(L0)',
+            'sub_models': ['1'], 'weighted': True, 'rare_treatment': True}
+    return df, meta
+
+
 def run(ctx):
     fails = []
     n = 18 if ctx.quick else 120
     cases = []
     for i in range(n):
         otype = ['binary', 'normal', 'poisson'][i % 3]
-        if i % 6 == 4 and otype != 'poisson':
+        if i % 6 == 1 and otype != 'poisson':
+            df, meta = rare_treatment_frame(ctx.rng, otype)
+        elif i % 6 == 4 and otype != 'poisson':
             # missing outcomes with a saturated missing-outcome model: IPTW and TMLE only (the g-formula and AIPTW
             # standardise over the rows with an observed outcome, which is not the `std` of all rows)
             df, meta = datagen.cat_frame(ctx.rng, outcome=otype, cell=(4, 7))
@@ -322,6 +352,8 @@ def run_cases(ctx, fails, cases):
         outs.append(out)
         # the specification is computed from the caller's rows (complete frames: the estimators keep them all, in order)
         out['S'], out['A'], out['Y'] = np.asarray(df['S']), np.asarray(df['A']), np.asarray(df['Y'], dtype=float)
+        if meta.get('weighted'):
+            out['W'] = [Fraction(int(x)) for x in df['w']]
         if 'S' in out:
             e, ok = build_expr(out, meta)
         else:
@@ -338,6 +370,7 @@ def run_cases(ctx, fails, cases):
         ctx.count('covariates:%d' % meta['n_cov'])
         ctx.count('strata:%d' % meta['n_strata'])
         ctx.count('index:' + meta.get('index', 'range'))
+        ctx.count('weighted rows with a rare-treatment stratum: %s' % bool(meta.get('rare_treatment')))
         ctx.count('missing outcomes + saturated missing model: %s' % bool(meta.get('missing')))
         ctx.count('displays/diagnostics/plots called around fit(): %s' % out.get('poked'))
         ctx.nontriv([meta, df['Y'].tolist(), df['A'].tolist()])
